@@ -72,6 +72,22 @@ CLAIMED = {
         "schedule points are the wrapped operations; WAL mode; existing populated database; stress linearisation approximate (re-validated over interval-compatible orders).",
         "DESIGN.md §5 C20, notes/C20.md",
     ),
+    "C17": (
+        ["Analyze", "MC_Analyze", "Gen_Analyze", "Trace_Analyze"],
+        "TLA+ state machine of analyze_templates (classifier pass, included_map, worklist, cache clearing, the two redirect updates) over PageStore; TLC checks termination and marked = least closure + redirect neighbours; "
+        "all inclusion graphs up to the bound x flag sets x redirect placements x name spellings run on the real analyze_templates; random 8-template worlds recorded and validated by TLC",
+        "Bounded-exhaustive (<=3 templates quick, <=4 thorough, simulated 8-template worlds) model checking plus conformance of the real need_pre_expand marks on every generated world and on recorded random worlds.",
+        "classifier returns the written names of the graph; redirect semantics read literally (one application of each update); PageStore title resolution reused.",
+        "DESIGN.md §5 C17, notes/C17.md",
+    ),
+    "C12": (
+        ["Ingest", "MC_Ingest", "Gen_Ingest", "Trace_Ingest"],
+        "TLA+ model of dump ingestion as a fold (namespace/doc/testcases/content-model filter, add_page with includable-part reduction, default templates) over PageStore, checked by TLC against a declarative Expected(dump, selection); "
+        "every TLC-enumerated abstract dump written as a real .xml.bz2 with nasty bodies/titles and ingested by the real parse_dump_xml + add_default_templates, get_all_pages compared exactly; recorded dumps over all language namespace tables validated by TLC",
+        "Bounded-exhaustive over abstract dumps (<=3 pages quick, <=4 thorough) with real XML/bz2 round trip and byte comparison; namespace sweep over the shipped language folders.",
+        "byte equality is the harness's comparison of concretised bodies; which pages/versions must be present is the model's; 'Main:' stripping is a listed finding.",
+        "DESIGN.md §5 C12, notes/C12.md",
+    ),
 }
 NOT_YET = "check not built yet in this round (see DESIGN.md §10 build order); nothing is claimed for it"
 
